@@ -69,6 +69,7 @@ pub fn cause_op2(g: &mut G, id: Id, k: KindTag) -> Option<Op> {
             2 => Op::TrReplace(id, if g.rng.chance(2, 3) { ChildSpec::Sock } else { ChildSpec::Timer(Deadline::In(g.rng.range(0, 20) * crate::gen::MS)) }),
             3 => Op::TrReplaceLazy(id, if g.rng.chance(2, 3) { ChildSpec::Sock } else { ChildSpec::Timer(Deadline::In(g.rng.range(0, 20) * crate::gen::MS)) }),
             4 => Op::TrMap(id),
+            5 if g.p.name == "C18" || g.p.scripted_faults => Op::TrChildFail(id, g.rng.range(1, 2) as u8),
             _ => Op::PeerWrite(id, 1),
         }),
         _ => None,
@@ -77,7 +78,7 @@ pub fn cause_op2(g: &mut G, id: Id, k: KindTag) -> Option<Op> {
 
 pub fn adapter_op(g: &mut G) -> Option<Op> {
     let have = !g.adapters.is_empty();
-    let r = g.rng.below(if have { 15 } else { 2 });
+    let r = g.rng.below(if have { 16 } else { 2 });
     match r {
         0 | 1 => {
             let id = g.fresh();
@@ -114,6 +115,13 @@ pub fn adapter_op(g: &mut G) -> Option<Op> {
         9 | 10 => Some(Op::AdapterPeerRead(*g.rng.pick(&g.adapters.clone()), *g.rng.pick(&[1u32, 64, 4096, 70000]))),
         11 => Some(Op::AdapterPeerClose(*g.rng.pick(&g.adapters.clone()))),
         14 => Some(Op::AdapterPeerLastWords(*g.rng.pick(&g.adapters.clone()), *g.rng.pick(&[1u32, 5, 64, 1000]))),
+        15 => {
+            if g.srcs.is_empty() {
+                return None;
+            }
+            let s = g.srcs[g.rng.below(g.srcs.len() as u64) as usize].0;
+            Some(Op::AdapterGiveTo(*g.rng.pick(&g.adapters.clone()), s, g.rng.below(3) as u8))
+        }
         12 => Some(Op::AdapterIntoInner(*g.rng.pick(&g.adapters.clone()))),
         _ => Some(Op::AdapterDrop(*g.rng.pick(&g.adapters.clone()))),
     }
